@@ -100,6 +100,9 @@ func envOf(env *T, arm int) *T {
 func (x *Exec) callFunc(st *State, fn *ssa.Function, args []Val, binds []Val, pos token.Pos) (Val, bool) {
 	// external (no SSA body, or outside the module): built-in models
 	if fn.Pkg == nil || !x.P.isRepoPkg(fn.Pkg.Pkg) {
+		if fn.Name() == "init" {
+			return nil, true // initialisers of other modules: their globals stay opaque constants
+		}
 		if r, handled := x.external(st, fn, args, pos); handled {
 			return r, true
 		}
@@ -115,6 +118,13 @@ func (x *Exec) callFunc(st *State, fn *ssa.Function, args []Val, binds []Val, po
 			useContract = !spec.Inline
 		case ModeUnwind:
 			useContract = spec.Abstract
+		}
+		if x.Spec != nil && len(st.Frames) == 1 {
+			for _, n := range strings.Fields(x.Spec.Attrs["inline"]) {
+				if n == fn.Name() {
+					useContract = false
+				}
+			}
 		}
 	}
 	if useContract {
@@ -223,19 +233,52 @@ func (x *Exec) applyContract(st *State, fn *ssa.Function, spec *contract.FuncSpe
 		env.vars[n] = args[i]
 		env.vars[n+"0"] = args[i]
 	}
+	// representation-private clauses (#rep) are visible only inside the owning package
+	// (encapsulation: the fields are unexported and every function of the package keeps the invariant)
+	sameP := true
+	if fn != nil && fn.Pkg != nil && len(st.Frames) > 0 && st.top().Fn != nil && st.top().Fn.Pkg != nil {
+		sameP = fn.Pkg == st.top().Fn.Pkg
+	}
 	// 1. preconditions
 	for i, r := range spec.Requires {
+		if r.Name == "rep" && !sameP {
+			continue
+		}
 		c := env.evalBool(r.E)
 		x.oblige(st, "pre", fmt.Sprintf("%s/%s", site, clauseLabel(r, i)), c, pos)
 	}
 	// 2. frame: what the callee may modify must be allowed for us
-	mods := env.evalMods(spec)
+	mods := env.evalMods(spec, sameP)
 	for _, m := range mods {
 		x.checkFrameLoc(st, m, "call "+site, pos)
 	}
 	old := st.clone()
 	// 3. havoc written classes (with frame axioms), apply `sets`
 	written := x.P.writtenClasses(fn, spec)
+	if !sameP && len(spec.ModRep) > 0 {
+		var repMods []modLoc
+		for _, m := range spec.ModRep {
+			repMods = append(repMods, env.evalLoc(m, false))
+		}
+		var vis []string
+		for _, c := range written {
+			hidden := false
+			for _, m := range repMods {
+				if classMatches(c, m.Class) {
+					hidden = true
+				}
+			}
+			for _, m := range mods {
+				if classMatches(c, m.Class) {
+					hidden = false
+				}
+			}
+			if !hidden {
+				vis = append(vis, c)
+			}
+		}
+		written = vis
+	}
 	allocBefore := st.Alloc
 	if x.P.allocates(fn, spec) {
 		st.Alloc = term.Fresh("alloc", term.Int)
@@ -276,6 +319,9 @@ func (x *Exec) applyContract(st *State, fn *ssa.Function, spec *contract.FuncSpe
 	env.allocBefore = allocBefore
 	// 5. postconditions
 	for _, e := range spec.Ensures {
+		if e.Name == "rep" && !sameP {
+			continue
+		}
 		x.assume(st, env.evalBool(e.E))
 	}
 	if spec.Attrs["noreturn"] != "" {
